@@ -17,11 +17,36 @@ RECURSIVE LsInfClosure(_, _, _, _)
 LsInfClosure(sr, A, n, S) ==
   LET T == S \cup { i \in 1..n : \E j \in S : LsA(A, n, i, j) # SrZero(sr) } IN
   IF T = S THEN S ELSE LsInfClosure(sr, A, n, T)
-LsLeast(sr, A, n, b) ==
+LsLeastByIteration(sr, A, n, b) ==
   LET k1 == LsKleene(sr, A, n, b, n + 1)
       k2 == LsKleene(sr, A, n, b, 2 * n + 2)
       grow == LsInfClosure(sr, A, n, { i \in 1..n : k2[i] # k1[i] })
   IN [i \in 1..n |-> IF i \in grow THEN INF ELSE k1[i]]
+
+(* On nat the same least solution is obtained without ever iterating a divergent  *)
+(* entry (whose iterates overflow TLC's integers from about 6 unknowns up): x_i is  *)
+(* infinite iff i reaches, through non-zero coefficients, a vertex c that either    *)
+(* lies on a cycle (every non-zero coefficient is >= 1, so the cycle pumps) and      *)
+(* reaches a non-zero entry of b, or carries an infinite b_c, or has an infinite     *)
+(* coefficient A[c,j] towards a j whose solution is non-zero (j reaches supp b).     *)
+(* What remains is acyclic as far as it matters and is solved by n+1 Kleene steps.   *)
+(* R3 (MC_LinSolve): equal to LsLeastByIteration on every system of the bound.       *)
+LsReach(sr, A, n) ==
+  LET R0 == [u \in 1..n |-> [v \in 1..n |-> (u = v) \/ LsA(A, n, u, v) # SrZero(sr)]]
+  IN FoldLeft(LAMBDA R, k: [u \in 1..n |-> [v \in 1..n |-> R[u][v] \/ (R[u][k] /\ R[k][v])]], R0, BIota(n))
+LsLeastNat(A, n, b) ==
+  LET R == LsReach("nat", A, n)
+      live(j) == \E l \in 1..n : R[j][l] /\ b[l] # 0
+      oncycle(c) == \E j \in 1..n : LsA(A, n, c, j) # 0 /\ R[j][c]
+      src(c) == \/ oncycle(c) /\ live(c)
+                \/ b[c] = INF
+                \/ \E j \in 1..n : LsA(A, n, c, j) = INF /\ live(j)
+      inf == { i \in 1..n : \E c \in 1..n : R[i][c] /\ src(c) }
+      A2 == [p \in 1..(n * n) |-> IF (((p - 1) \div n) + 1) \in inf \/ (((p - 1) % n) + 1) \in inf THEN 0 ELSE A[p]]
+      b2 == [i \in 1..n |-> IF i \in inf THEN 0 ELSE b[i]]
+      k1 == LsKleene("nat", A2, n, b2, n + 1)
+  IN [i \in 1..n |-> IF i \in inf THEN INF ELSE k1[i]]
+LsLeast(sr, A, n, b) == IF sr = "nat" THEN LsLeastNat(A, n, b) ELSE LsLeastByIteration(sr, A, n, b)
 
 (* Certified contraction on quarters (Real / Log semirings with fractional      *)
 (* entries): A4 = 4 A has natural entries with every row sum < 4 (so the         *)
